@@ -897,7 +897,7 @@ structure WK (s : St) : Prop where
 
 theorem wk_swap {s : St} (h : WK s) : WK s.swap := ⟨h.b, h.a⟩
 
-theorem wk_peerEv (cfg : Cfg) (hw : cfg.wake = true) (s : St) (e : Ev) (hf : Full s) (h : WK s) :
+theorem wk_peerEv (cfg : Cfg) (hw : (cfg.tok || cfg.wake) = true) (s : St) (e : Ev) (hf : Full s) (h : WK s) :
     WK (peerEv cfg s e).1 := by
   have hp := peerEv_spec cfg s e hf.a hf.bndA hf.stA hf.ubA
   have hs2 := frameSame hp.frame
@@ -939,7 +939,10 @@ theorem wk_peerEv (cfg : Cfg) (hw : cfg.wake = true) (s : St) (e : Ev) (hf : Ful
   | steppre w f =>
     simp only [peerEv]
     split
-    · intro _; rfl
+    · rename_i hc
+      split
+      · exact hstep _ f (fun x => by rw [hc.2.1] at x; cases x)
+      · intro _; rfl
     · exact honl f
   | join w =>
     simp only [peerEv]
@@ -987,7 +990,7 @@ theorem expire_flags (s : St) : (expire s).1.parked = s.parked ∧ (expire s).1.
   · exact ⟨a2.1.trans (a1.1.trans hg.1), a2.2.1.trans (a1.2.1.trans hg.2.1), a2.2.2.1.trans (a1.2.2.1.trans hg.2.2.1),
       a2.2.2.2.trans (a1.2.2.2.trans hg.2.2.2)⟩
 
-theorem wk_next (cfg : Cfg) (hw : cfg.wake = true) (s : St) (e : Ev) (hf : Full s) (h : WK s) :
+theorem wk_next (cfg : Cfg) (hw : (cfg.tok || cfg.wake) = true) (s : St) (e : Ev) (hf : Full s) (h : WK s) :
     WK (next cfg s e).1 := by
   unfold next
   split
@@ -1037,13 +1040,13 @@ theorem wk_next (cfg : Cfg) (hw : cfg.wake = true) (s : St) (e : Ev) (hf : Full 
       have hg := expire_flags s
       exact ⟨by rw [hg.1, hg.2.1]; exact h.a, by rw [hg.2.2.1, hg.2.2.2]; exact h.b⟩
 
-theorem wk_foldl (cfg : Cfg) (hw : cfg.wake = true) (evs : List Ev) : ∀ s, Full s → WK s →
+theorem wk_foldl (cfg : Cfg) (hw : (cfg.tok || cfg.wake) = true) (evs : List Ev) : ∀ s, Full s → WK s →
     WK (evs.foldl (fun s e => (next cfg s e).1) s) := by
   induction evs with
   | nil => intro s _ h; exact h
   | cons e t ih => intro s hf h; exact ih _ (next_spec cfg s e hf).full (wk_next cfg hw s e hf h)
 
-theorem wk_run (cfg : Cfg) (hw : cfg.wake = true) (evs : List Ev) : WK (run cfg evs) :=
+theorem wk_run (cfg : Cfg) (hw : (cfg.tok || cfg.wake) = true) (evs : List Ev) : WK (run cfg evs) :=
   wk_foldl cfg hw evs _ full_init ⟨(fun x => by cases x), (fun x => by cases x)⟩
 
 end LinVerif.Replication
